@@ -41,6 +41,12 @@ fn init_logger() {
 
 /// One complete in-process run under the controlled scheduler.
 fn run_once(data: &Path, dump: &Path, coin_name: &str, cb: &str, prefix: &[usize]) -> (RunResult, sched::Outcome) {
+    run_once_mode(data, dump, coin_name, cb, prefix, 0)
+}
+
+/// `workers` = 0: thread-per-task mode (orders only); > 0: worker-pool mode (orders x worker assignment, thread-local
+/// state persists per worker). The pool outcome is mapped onto sched::Outcome (order = (task, worker) pairs flattened).
+fn run_once_mode(data: &Path, dump: &Path, coin_name: &str, cb: &str, prefix: &[usize], workers: usize) -> (RunResult, sched::Outcome) {
     let _ = std::fs::remove_dir_all(dump);
     std::fs::create_dir_all(dump).unwrap();
     LOGBUF.lock().unwrap().clear();
@@ -58,12 +64,18 @@ fn run_once(data: &Path, dump: &Path, coin_name: &str, cb: &str, prefix: &[usize
         libc::dup2(fd, 1);
         (saved, fd)
     };
-    let (res, outcome) = sched::run(prefix, || -> Result<(), String> {
+    let body = || -> Result<(), String> {
         let options = crate::parse_args(crate::command().get_matches_from(argv.clone())).map_err(|e| e.to_string())?;
         let storage = ChainStorage::new(&options).map_err(|e| e.to_string())?;
         let mut parser = BlockchainParser::new(options, storage);
         parser.start().map_err(|e| e.to_string())
-    });
+    };
+    let (res, outcome) = if workers == 0 {
+        sched::run(prefix, body)
+    } else {
+        let (r, o) = rayon::pool::run(prefix, workers, body);
+        (r, sched::Outcome { choices: o.choices, order: o.trace.iter().flat_map(|(t, w)| [*t, *w]).collect(), regions: 0, tasks: 0, diverged: o.diverged })
+    };
     let _ = std::io::stdout().flush();
     unsafe {
         libc::dup2(saved, 1);
@@ -402,6 +414,7 @@ fn c13() -> Report {
     }
     rep.count("predicted_total_schedules", total_pred as u64);
     rep.bound = Value::Object(bound);
+    pool_part(&mut rep, &root);
     rep.assumptions = vec![
         "closures of the parallel iterators are atomic at item granularity (they contain no synchronisation); interleavings inside one closure are outside this explorer (data races are a compile error in safe Rust; a free-running real-rayon conformance pass is part of the E1 engine)".into(),
         "adapter chains run per item; flat_map is staged".into(),
@@ -445,4 +458,110 @@ fn replay(path: &str) -> i32 {
         println!("REPLAY-DIFFERS: identical to schedule [] on the current tree");
         0
     }
+}
+
+
+/// Worker-pool mode: all (order x worker assignment) schedules with 2 workers on tiny worlds built so that thread-local or
+/// per-worker state would show: on a fork coin the SAME 20-byte hash is used as key hash (P2PKH), as script hash (P2SH) and
+/// through P2PK of a key, in one transaction and across transactions.
+fn pool_part(rep: &mut Report, root: &Path) {
+    use rayon::iter::IntoParallelIterator;
+    // canary: a closure whose result depends on which worker ran it (thread-local counter) must show > 1 outcome
+    thread_local! { static SEEN: std::cell::Cell<u32> = const { std::cell::Cell::new(0) }; }
+    let mut outcomes = BTreeSet::new();
+    let mut stack: Vec<Vec<usize>> = vec![vec![]];
+    let mut n = 0u64;
+    while let Some(prefix) = stack.pop() {
+        let (v, oc) = rayon::pool::run(&prefix, 2, || {
+            let r: Vec<u32> = vec![1, 2, 3].into_par_iter().map(|_| SEEN.with(|c| { c.set(c.get() + 1); c.get() })).collect();
+            r
+        });
+        n += 1;
+        outcomes.insert(v);
+        for i in prefix.len()..oc.choices.len() {
+            for alt in 1..oc.choices[i].1 {
+                let mut p: Vec<usize> = oc.choices[..i].iter().map(|c| c.0).collect();
+                p.push(alt);
+                stack.push(p);
+            }
+        }
+    }
+    rep.count("pool_canary_schedules", n);
+    rep.count("pool_canary_outcomes_of_thread_local_counter", outcomes.len() as u64);
+    if outcomes.len() < 2 {
+        rep.machinery(format!("worker-pool canary: a thread-local counter read by 3 items on 2 workers must show several outcomes, saw {}", outcomes.len()));
+        return;
+    }
+    let h = script::h20(0x5c);
+    let key = script::key33(0x5d);
+    let hk = refmodel::hash::hash160(&key);
+    let worlds: Vec<(&str, &'static str, Vec<Vec<TxOut>>)> = vec![
+        ("shared hash as P2PKH and P2SH in one tx", "litecoin", vec![vec![TxOut { value: 1, script: script::p2pkh(&h) }, TxOut { value: 2, script: script::p2sh(&h) }]]),
+        ("shared hash across two txs: P2SH(hash of a key) then P2PK of that key", "dogecoin", vec![vec![TxOut { value: 1, script: script::p2sh(&hk) }, TxOut { value: 2, script: script::p2pk(&key) }]]),
+        ("bitcoin control", "bitcoin", vec![vec![TxOut { value: 1, script: script::p2pkh(&h) }, TxOut { value: 2, script: script::p2sh(&h) }]]),
+    ];
+    let mut worlds = worlds;
+    if is_thorough() {
+        worlds.push(("three transactions sharing one hash (P2SH / P2PK / P2PKH)", "dogecoin", vec![vec![TxOut { value: 1, script: script::p2sh(&hk) }], vec![TxOut { value: 2, script: script::p2pk(&key) }, TxOut { value: 3, script: script::p2pkh(&hk) }]]));
+    }
+    let mut summary = serde_json::Map::new();
+    for (wi, (name, cname, txs)) in worlds.iter().enumerate() {
+        let c = coin(cname);
+        let mut cb = ChainBuilder::at(c, 0);
+        let mut all = vec![coinbase(0, 3, vec![TxOut { value: 5, script: script::p2pkh(if wi == 1 { &hk } else { &h }) }])];
+        for (k, outs) in txs.iter().enumerate() {
+            all.push(Tx { version: 1, segwit: false, inputs: vec![TxIn::spend([0xee; 32], k as u32)], outputs: outs.clone(), locktime: 0 });
+        }
+        cb.push_raw(all);
+        let world = World::simple(c, &cb.blocks, 0);
+        let wdir = root.join(format!("pool{}", wi));
+        let data = wdir.join("data");
+        if let Err(e) = world.materialise(&data) {
+            rep.machinery(format!("materialise: {}", e));
+            continue;
+        }
+        let dump = wdir.join("dump");
+        let (r0, _) = run_once_mode(&data, &dump, cname, "csvdump", &[], 2);
+        let baseline = observe(&r0, &wdir);
+        if let Some((sig, _)) = check_csvdump(&r0, c, &cb.mblocks(), 0, 0).into_iter().next() {
+            rep.count(&format!("note:pool-schedule-0-differs-from-model:{}", sig), 1);
+        }
+        let mut stack: Vec<Vec<usize>> = vec![vec![]];
+        let (mut n, mut traces, mut outs) = (0u64, BTreeSet::new(), BTreeSet::new());
+        let cap: u64 = if is_thorough() { 2_000_000 } else { 60_000 };
+        while let Some(prefix) = stack.pop() {
+            if n >= cap {
+                rep.caps_hit.push(format!("worker-pool world '{}': schedule cap {} reached (DFS order; the covered part is a prefix-closed subtree)", name, cap));
+                break;
+            }
+            let (r, oc) = run_once_mode(&data, &dump, cname, "csvdump", &prefix, 2);
+            n += 1;
+            if oc.diverged.is_some() {
+                rep.machinery(format!("pool world {}: replay diverged: {:?}", name, oc.diverged));
+                break;
+            }
+            traces.insert(h8(format!("{:?}", oc.order).as_bytes()));
+            let o = observe(&r, &wdir);
+            outs.insert(h8(o.to_string().as_bytes()));
+            if o != baseline {
+                rep.disagree("outcome-depends-on-worker-assignment-or-order", format!("{} '{}': schedule {:?} ((task, worker) trace {:?}) gives a different csvdump than schedule []", cname, name, oc.choices.iter().map(|c| c.0).collect::<Vec<_>>(), oc.order), json!({"kind": "pool-schedule", "world": name, "coin": cname, "schedule": oc.choices.iter().map(|c| c.0).collect::<Vec<_>>()}));
+                break;
+            }
+            for i in (prefix.len()..oc.choices.len()).rev() {
+                for alt in (1..oc.choices[i].1).rev() {
+                    let mut p: Vec<usize> = oc.choices[..i].iter().map(|c| c.0).collect();
+                    p.push(alt);
+                    stack.push(p);
+                }
+            }
+        }
+        rep.states += n;
+        rep.transitions += n;
+        for t in &traces {
+            rep.nontrivial.insert(*t);
+        }
+        summary.insert(format!("{}/{}", cname, name), json!({"schedules (order x worker assignment, 2 workers)": n, "distinct_traces": traces.len(), "distinct_outcomes": outs.len()}));
+        let _ = std::fs::remove_dir_all(&wdir);
+    }
+    rep.bound["worker_pool_mode"] = Value::Object(summary);
 }
